@@ -287,6 +287,9 @@ def main(rep, tier, only):
             rep.fail("TREE-ID", k2, F.primary_site(fn), F.describe(fn),
                      why="the position of `%s` among the children of `%s` is not found by comparing addresses (`&child == &element`): "
                          "a structurally equal sibling would be reported instead" % (child["name"], parent["name"]))
+    if only in (None, "TREE-MAP"):
+        from checks import c09_map
+        c09_map.rules(rep, db)
     rep.explanation = ("Invariant-preservation rules over every member function of tree::object (type-resolved AST of the "
                        "explicit instantiations in drv_containers). Decides that no operation can break the parent/child "
                        "link invariant; does not decide traversal results.")
